@@ -190,7 +190,10 @@ casc_fmt!(ArchiveIndex, "ArchiveIndex", false, |s, _k| vec![
     ("entries", dh(&s.entries.iter().map(|e| (&e.encoding_key, e.size, e.archive_index.map_or(e.offset, |a| (u64::from(a) << 32) | (e.offset & 0xffff_ffff)))).collect::<Vec<_>>())),
     ("toc", dh(&s.toc)),
     ("footer_format", dh(&(s.footer.version, s.footer.page_size_kb, s.footer.offset_bytes, s.footer.size_bytes, s.footer.ekey_length, s.footer.footer_hash_bytes))),
-    ("element_count", dh(&s.footer.element_count)),
+    // the footer's count is redundant with the records themselves; an accepted input whose (correctly hashed) count
+    // disagrees with its records (it counts a padding record, or one record less) may be written back with the
+    // actual number: compared as read only when it is consistent with the records
+    ("element_count", dh(&if s.footer.element_count as usize == s.entries.len() { s.footer.element_count as usize } else { s.entries.len() })),
 ]);
 debug_fmt!(ESpec, "ESpec", true);
 casc_fmt!(KeyringConfig, "KeyringConfig", true, |s, _k| vec![("entries", dh(s.entries()))]);
@@ -336,7 +339,7 @@ impl Fmt for Group {
         format!("{:#?}", self.0)
     }
     fn project(&self, _k: &[String]) -> Projection {
-        vec![("entries", dh(&self.0.entries)), ("element_count", dh(&self.0.footer.element_count)), ("footer_format", dh(&(self.0.footer.offset_bytes, self.0.footer.ekey_length)))]
+        vec![("entries", dh(&self.0.entries)), ("element_count", dh(&if self.0.footer.element_count as usize == self.0.entries.len() { self.0.footer.element_count as usize } else { self.0.entries.len() })), ("footer_format", dh(&(self.0.footer.offset_bytes, self.0.footer.ekey_length)))]
     }
 }
 
